@@ -308,7 +308,7 @@ where
     let start = Instant::now();
     let deadline = start + limits.wall;
 
-    if std::env::var("PV_SEQ").is_ok() {
+    if std::env::var("PV_SEQ").is_ok() || limits.threads == 1 {
         // reference mode: plain sequential DFS, no seeding, no work sharing
         let mut total = Stats::default();
         let mut prefix = Some(Vec::new());
